@@ -173,6 +173,30 @@ Definition src_ok (fl : list text) (s : sec) (k : ekind) (src : lineseq) : bool 
   | _, _ => false
   end.
 
+Fixpoint is_prefix (a b : text) : bool :=   (* a is a prefix of b *)
+  match a, b with
+  | [], _ => true
+  | x :: a', y :: b' => (x =? y) && is_prefix a' b'
+  | _ :: _, [] => false
+  end.
+
+(** the lines shown by an error report against the actual lines: each [came_from] its line; the LAST line of a
+    report of several lines may stop where the parser stopped (a prefix of the actual line) *)
+Fixpoint err_lines_ok (first : bool) (rep act : list text) : bool :=
+  match rep, act with
+  | [], [] => true
+  | [r], [a] => came_from r a || (negb first && is_prefix (rstrip r) a)
+  | r :: rep', a :: act' => came_from r a && err_lines_ok false rep' act'
+  | _, _ => false
+  end.
+
+(** the source lines shown by an error report against the lines [fl] of the file it names *)
+Definition err_src_ok (fl : list text) (src : lineseq) : bool :=
+  match file_lines fl (ls_first src) (length (ls_lines src)), ls_lines src with
+  | Some actual, _ :: _ => err_lines_ok true (ls_lines src) actual
+  | _, _ => false
+  end.
+
 Section Located.
   Variable fs : N -> text -> fsres.
   Variable contents : N -> option (list text).
@@ -252,17 +276,7 @@ Section Located.
         | Some (fid, _, display) =>
             text_eqb display path &&
             match contents fid with
-            | Some fl =>
-                match file_lines fl (ls_first src) (length (ls_lines src)), ls_lines src with
-                | Some actual, _ :: _ =>
-                    (fix all2 (a b : list text) : bool :=
-                       match a, b with
-                       | [], [] => true
-                       | x :: a', y :: b' => came_from x y && all2 a' b'
-                       | _, _ => false
-                       end) (ls_lines src) actual
-                | _, _ => false
-                end
+            | Some fl => err_src_ok fl src
             | None => false
             end
         | None => false
@@ -392,3 +406,28 @@ Definition ps_state_ok (s : text) (o : psobs) : bool :=
 Definition check_pscase (c : pscase) : bool * bool :=
   ( list_eqb (option_eqb psobs_eqb) (ps_trace (psc_ops c) (ps_init (psc_src c))) (psc_obs c),
     forallb (fun o => match o with Some st => ps_state_ok (psc_src c) st | None => true end) (psc_obs c) ).
+
+(** * Line classification case: what syntax.py, _un_escape and str.split say about one line.  Of the header
+      only what the property talks about is compared: the phase it names, or "not a valid phase header"
+      (malformed and unknown headers are both errors; which of the two is not observable in an error report). *)
+Record hcase := HCase {
+  hc_line : text;
+  hc_empty : bool; hc_comment : bool; hc_header : bool;
+  hc_phase : option text;       (* the section name extracted from a header line if it is the name of a phase *)
+  hc_unescaped : text;          (* act_phase_source_parser._un_escape *)
+  hc_split : list text }.       (* str.split() *)
+
+Definition strip_sptab (l : text) : text := rev (drop_while is_sptab (rev (drop_while is_sptab l))).
+
+Definition check_hcase (c : hcase) : bool * bool :=
+  let l := hc_line c in
+  ( Bool.eqb (is_empty_line l) (hc_empty c) && Bool.eqb (is_comment_line l) (hc_comment c) &&
+    Bool.eqb (is_header_line l) (hc_header c) &&
+    option_eqb text_eqb (if is_header_line l then match header_of l with HSec s => Some (sec_name s) | _ => None end else None)
+               (hc_phase c) &&
+    text_eqb (un_escape l) (hc_unescaped c) && lines_eqb (split_ws l) (hc_split c),
+    (* property: a line is the header of phase NAME exactly when, apart from surrounding blanks and tabs, it is [NAME] *)
+    match find (fun s => text_eqb (strip_sptab l) (c_lbr :: sec_name s ++ [c_rbr])) all_secs with
+    | Some s => option_eqb text_eqb (hc_phase c) (Some (sec_name s))
+    | None => match hc_phase c with None => true | Some _ => false end
+    end ).
